@@ -1,5 +1,7 @@
 SPECIFICATION Spec
 CONSTANTS
+  Rivals2 = {"", "WriteBlock.lock", "WriteBlock.Write#1", "WriteBlock.Write#2", "WriteBlock.Write#3", "WriteBlock.tmpfile.Close", "WriteBlock.Chtimes", "WriteBlock.OpenFile", "WriteBlock.Rename"}
+  SharedTmp = FALSE
   Rivals = {"", "WriteBlock.TempFile", "WriteBlock.Copy", "WriteBlock.Write#1", "WriteBlock.Write#2", "WriteBlock.Write#3", "WriteBlock.tmpfile.Close", "WriteBlock.Chtimes", "WriteBlock.OpenFile", "WriteBlock.Rename"}
   Chunks = {0, 1, 3}
   Pres = {"none", "intact_old", "corrupt_old", "dir", "nodir"}
